@@ -313,6 +313,12 @@ func (c *Cluster) AddShardGroup(start, end int64, owners [][]int) []uint64 {
 	return ids
 }
 
+// Truncate is meta.Data.TruncateShardGroups on the cluster's metadata.
+func (c *Cluster) Truncate(t int64) {
+	c.Data.TruncateShardGroups(time.Unix(0, t).UTC())
+	c.push()
+}
+
 // Needed returns the ids of the shards of the groups overlapping [lo, hi].
 func (c *Cluster) Needed(lo, hi int64) []uint64 {
 	var out []uint64
